@@ -6,7 +6,7 @@ D=$(readlink -f "$1")
 W=$(mktemp -d /tmp/confirm-XXXXXX)
 git -C /repo worktree add -q --detach "$W/repo" HEAD || exit 2
 cd "$W/repo"
-run_demo() { ( cd "$W/repo" && PYTHONPATH="$W/repo" PYTHONHASHSEED=0 timeout 600 /venv/bin/python "$D/demo.py" > "$W/demo.out" 2>&1 ); echo $?; }
+run_demo() { cp "$D/demo.py" "$W/repo/demo.py"; ( cd "$W/repo" && PYTHONPATH="$W/repo" PYTHONHASHSEED=0 timeout 600 /venv/bin/python demo.py > "$W/demo.out" 2>&1 ); echo $?; }
 ORIG=$(run_demo)
 git apply "$D/patch.diff" || { echo "patch does not apply"; git -C /repo worktree remove --force "$W/repo"; rm -rf "$W"; exit 2; }
 MUT=$(run_demo); tail -3 "$W/demo.out" > "$W/demo_tail.txt"
